@@ -20,7 +20,14 @@ WIDTH_BOUNDS = [0, 1, 127, 128, 255, 256, 32767, 32768, 65535, 65536, 2 ** 31 - 
                 -2 ** 31, -2 ** 31 - 1, -2 ** 63, -2 ** 63 - 1]
 
 CODEPOINTS = [0, 1, 0x20, 0x2f, 0x30, 0x41, 0x61, 0x7a, 0x7e, 0x7f, 0x80, 0xe9, 0x7ff, 0x800, 0xfff,
-              0x20ac, 0xd7ff, 0xe000, 0xfffd, 0xffff, 0x10000, 0x1f600, 0x10ffff]
+              0x20ac, 0xd7ff, 0xe000, 0xfffd, 0xffff, 0x10000, 0x1f600, 0x10ffff,
+              # code points codecs / normalisers / case folding treat specially
+              0xfeff, 0xfffe, 0x85, 0xa0, 0xad, 0x2028, 0x2029, 0x200b, 0x301, 0x130, 0x131, 0x17f, 0x212a, 0x2126, 0x212b,
+              0xdf, 0x1e9e, 0xf900, 0x1100, 0xac00, 0xff21, 0x3a3, 0x3c2, 0x0a, 0x0d, 0x09, 0x1b]
+# strings that a lossy transformation (BOM stripping, NFC/NFKC, case folding, newline translation) changes
+TRICKY_STRINGS = ['\ufeff', '\ufeffabc', 'a\ufeff', 'e\u0301', 'cafe\u0301', '\u212b', '\u2126', '\uf900', '\u1100\u1161',
+                  '\u0130', '\u017f', '\u212a', 'stra\u00dfe', 'a\r\nb', 'a\nb', '\x00', 'a\x00b', ' a ', 'a ', '\ta',
+                  '\ud7ff', '\ue000', '\U0010ffff', 'A', 'a']
 NAME_OK = "abzAZ059-_.:@#,/ "
 NAME_BAD = "\n\t!$%&'()*+;<=>?[\\]^`{|}~\x00\x7f\xe9€\U0001f600"
 
@@ -88,6 +95,8 @@ class Gen:
         k = r.random()
         if k < 0.1:
             return ''
+        if k < 0.16:
+            return r.choice(TRICKY_STRINGS)
         if k < 0.2:
             n = r.choice([1, 2, 127, 128, 129, 255, 256, 257])
             n = min(n, maxlen) if maxlen < n else n
@@ -106,6 +115,8 @@ class Gen:
             n = 255 // width - r.choice([0, 0, 1, 2])
             return ch * max(n, 0)
         s = self.string(60)
+        if k < 0.35:
+            s = r.choice(TRICKY_STRINGS)
         while len(s.encode('utf-8')) > 255:
             s = s[:len(s) // 2]
         return s
